@@ -4,18 +4,20 @@ never-alarm corpus; store the outcome in seeded/own-*/meta.json and
 corpus-noalarm/results.json."""
 import json, os, subprocess, sys, glob, tempfile, shutil, time
 
+ROOT = os.path.dirname(os.path.dirname(os.path.abspath(__file__)))
+
 def run_on(patch, prop, budget="12"):
     wt = tempfile.mkdtemp(prefix="ev-", dir="/tmp")
     subprocess.check_call(["git", "-C", "/repo", "worktree", "add", "-q", "--detach", wt, "HEAD"])
     try:
         subprocess.check_call(["git", "-C", wt, "apply", os.path.abspath(patch)])
-        b = subprocess.run(["/verif/scripts/baseline.sh", wt], stdout=subprocess.PIPE, stderr=subprocess.STDOUT).stdout.decode()
-        env = dict(os.environ, VERIF_REPO=wt, VERIF_BUDGET_S=budget)
+        b = subprocess.run([ROOT + "/scripts/baseline.sh", wt], stdout=subprocess.PIPE, stderr=subprocess.STDOUT).stdout.decode()
+        env = dict(os.environ, VERIF_REPO=wt, VERIF_BUDGET_S=budget, VERIF_HOME=ROOT)
         t0 = time.time()
-        pr = subprocess.run(["bin/simcheck", "run", "--property", prop, "--tier", "quick"], cwd="/verif", env=env, stdout=subprocess.PIPE, stderr=subprocess.STDOUT)
+        pr = subprocess.run(["bin/simcheck", "run", "--property", prop, "--tier", "quick"], cwd=ROOT, env=env, stdout=subprocess.PIPE, stderr=subprocess.STDOUT)
         txt = pr.stdout.decode(errors="replace")
         lines = [l[:400] for l in txt.splitlines() if l.startswith(("VIOLATION", "violation", "UNSUPPORTED", "HARNESS", "simcheck:", "KNOWN"))]
-        subprocess.run(["git", "-C", "/verif", "checkout", "-q", "--", "evidence"], stderr=subprocess.DEVNULL)
+        subprocess.run(["git", "-C", ROOT, "checkout", "-q", "--", "evidence"], stderr=subprocess.DEVNULL)
         return {"baseline": b.strip().splitlines()[0] if b.strip() else "", "exit": pr.returncode, "wall_s": round(time.time() - t0, 1), "lines": lines[:6]}
     finally:
         subprocess.call(["git", "-C", "/repo", "worktree", "remove", "--force", wt])
@@ -25,7 +27,7 @@ what = sys.argv[1] if len(sys.argv) > 1 else "own"
 if what == "ids":
     # re-run the target property's quick check for the given seeded ids (budget: env BUDGET, default 15)
     for sid in sys.argv[2:]:
-        d = "/verif/seeded/" + sid
+        d = ROOT + "/seeded/" + sid
         m = json.load(open(d + "/meta.json"))
         r = run_on(d + "/patch.diff", m["property"], os.environ.get("BUDGET", "15"))
         m.setdefault("checks", {})[m["property"]] = {"exit": r["exit"], "wall_s": r["wall_s"], "lines": r["lines"], "summary": ""}
@@ -33,7 +35,7 @@ if what == "ids":
         json.dump(m, open(d + "/meta.json", "w"), indent=1)
         print(sid, m["property"], r["baseline"], "exit", r["exit"], [l.split()[1] for l in r["lines"] if l.startswith("violation")])
 elif what == "own":
-    for d in sorted(glob.glob("/verif/seeded/own-*")):
+    for d in sorted(glob.glob(ROOT + "/seeded/own-*")):
         m = json.load(open(d + "/meta.json"))
         r = run_on(d + "/patch.diff", m["property"])
         m["checks"] = {m["property"]: r}
@@ -41,11 +43,11 @@ elif what == "own":
         print(m["id"], m["property"], r["baseline"], "exit", r["exit"], [l.split()[1] for l in r["lines"] if l.startswith("violation")])
 else:
     res = {}
-    for f in sorted(glob.glob("/verif/corpus-noalarm/*.diff")):
+    for f in sorted(glob.glob(ROOT + "/corpus-noalarm/*.diff")):
         n = os.path.basename(f)[:-5]
         res[n] = {}
         for prop in ["C14", "C07", "C02", "C09"]:
             r = run_on(f, prop, "8")
             res[n][prop] = {"exit": r["exit"], "baseline": r["baseline"], "lines": r["lines"]}
             print(n, prop, r["baseline"], "exit", r["exit"], r["lines"][:2])
-    json.dump(res, open("/verif/corpus-noalarm/results.json", "w"), indent=1)
+    json.dump(res, open(ROOT + "/corpus-noalarm/results.json", "w"), indent=1)
